@@ -7,7 +7,7 @@ META = {
                  "interleaved at every yield point with FIN/REQ/TOUCH/timeout scan/delivery/Empty; every schedule forced "
                  "on the real daemon (gated replay), followed by a real restart on the same data path and a drain, "
                  "compared with the model's prediction; plus randomized publish/consume histories with nsqd.Exit at a "
-                 "random moment, restart, drain and a two-lifetime ledger",
+                 "random moment, restart, drain and a two-lifetime ledger; NsqdTopic: shutdown at every yield point of topic-level operations and of the pump's copy round, real restart",
     "design_ref": "5/C05",
 }
 
@@ -80,6 +80,10 @@ def run(ctx):
         raise Inconclusive("NsqdShutdown_abort.cfg is not refuted")
     # A': shutdown-at-point. TLC enumerates the schedules, the replayer forces them, restarts, and drains.
     pairs.run_pairs(ctx, "C05", pairs=[(x, "EXIT") for x in pairs.EXIT_PARTNERS])
+    import tpairs
+    # topic level (NsqdTopic): graceful shutdown at every yield point of publish / channel creation / deletion / pause and
+    # of the message pump's copy round, then a real restart
+    tpairs.run_tpairs(ctx, "C05", only=lambda t: "TEXIT" in t)
     # B: random histories, shutdown at a random moment, restart, drain, ledger over both lifetimes
     n = 24 if ctx.quick else 300
     runs = corelib.drive(ctx, "restart", n)
